@@ -51,7 +51,9 @@ def _func_table(text):
     """line ranges of `fn name` items in emitted unit (coarse: fn keyword line .. next fn line)."""
     tab = []
     for i, ln in enumerate(text.split("\n"), 1):
-        m = re.search(r"\bfn\s+([A-Za-z_][A-Za-z0-9_]*)", rsx.strip_markers(ln))
+        # insertions dropped, declared substitutions kept as emitted (a macro arm's `fn $method` is named by one)
+        shown = rsx._strip_sub.sub(lambda mm: mm.group(0).split("*/", 1)[1].rsplit("/*@s*/", 1)[0], rsx._strip_ins.sub("", ln))
+        m = re.search(r"\bfn\s+([A-Za-z_][A-Za-z0-9_]*)", shown)
         if m and not ln.lstrip().startswith("//"):
             tab.append((i, m.group(1)))
     return tab
@@ -89,6 +91,16 @@ def parse_verus_errors(stderr, unit_file, text):
                 clause_line = int(m.group(1))
                 if "failed this" in label:
                     break
+        # multi-line clause: `NNN | /  first line` ... `    | |____^ failed this postcondition`
+        bl = b.split("\n")
+        for k, ln in enumerate(bl):
+            if re.match(r"^\s*\|\s*\|_+\^ failed (this|precondition)", ln):
+                j = k - 1
+                while j >= 0 and not re.match(r"^\s*\d+\s*\|\s*/", bl[j]):
+                    j -= 1
+                if j >= 0:
+                    clause_line = int(re.match(r"^\s*(\d+)", bl[j]).group(1))
+                break
         primary = spans[0] if spans else None
         fn = _func_at(tab, primary) if primary else None
         clause_txt = ""
